@@ -146,6 +146,7 @@ fn real_main() -> i32 {
         "C11" => c11,
         "C12" => c12,
         "C13" => c13,
+        "C14" => c14,
         "C17" => c17,
         "C20" => c20,
     )
